@@ -58,6 +58,9 @@ def gen_case(rng, tier, index):
     # violation is attributable (known-finding keys stay specific)
     kind = rng.choice(dsgen.BAD_KINDS)
     target = rng.randrange(0, 8)
+    odd = [i for i, a in enumerate(st["attrs"]) if a["name"] == "v0"]
+    if odd and rng.random() < 0.5:
+        target = odd[0]  # aim at the variable-size / half-supported attribute
     for ses in hist["sessions"]:
         for w in ses.get("writes", []):
             if w.get("bad"):
